@@ -26,13 +26,48 @@ def main():
     mod = importlib.import_module("harness.zcv.props." + a.prop.lower())
     ctx = core.Ctx(a.prop, a.tier, seed)
     if a.replay:
-        sys.exit(mod.replay(ctx, a.replay))
+        sys.exit(replay(mod, core, a.prop, a.replay))
     try:
         code = mod.run(ctx)
     except Exception:
         traceback.print_exc()
         sys.exit(core.emergency_report(ctx))
     sys.exit(code)
+
+
+def replay(mod, core, prop, path):
+    """--replay FILE: every random choice of a check derives from (seed, tier), both recorded in the replay file, so the
+    replay is the same run again: exit 1 (and the VIOLATION lines of that run) if a violation with the recorded signature -
+    for a broken tie: any broken obligation or disagreement - shows again on the current tree, exit 0 if it does not.
+    A module may provide its own `replay(ctx, path)` (a direct re-evaluation of the recorded input); it is preferred."""
+    import json
+    import shutil
+    rec = json.load(open(path))
+    seed, tier = int(rec.get("seed") or 0), rec.get("tier") or "quick"
+    ctx = core.Ctx(prop, tier, seed)
+    if hasattr(mod, "replay"):
+        return mod.replay(ctx, path)
+    print("replaying %s: %s (signature %s) with seed=%s tier=%s" % (path, rec.get("what"), rec.get("signature"), seed, tier))
+    ev = os.path.join(core.VERIF, "evidence", prop + ".json")
+    keep = ev + ".before-replay"
+    if os.path.exists(ev):
+        shutil.copy(ev, keep)
+    try:
+        try:
+            mod.run(ctx)
+        except Exception:
+            traceback.print_exc()
+            core.emergency_report(ctx)
+    finally:
+        if os.path.exists(keep):
+            shutil.move(keep, ev)      # the evidence file belongs to the registered commands, not to a replay
+    if rec.get("kind") == "tie":
+        again = bool(ctx.disagreements) or bool(getattr(ctx.tie, "broken", None))
+    else:
+        sig = rec.get("signature") or rec.get("what")
+        again = any((v.signature or v.what) == sig for v in ctx.violations)
+    print("replay: %s" % ("REPRODUCED" if again else "not reproduced on this tree"))
+    return 1 if again else 0
 
 
 if __name__ == "__main__":
